@@ -2,6 +2,7 @@ package main
 
 import (
 	"fmt"
+	"strings"
 
 	hg "github.com/mosaicnetworks/babble/src/hashgraph"
 	"verif/harness/dag"
@@ -68,6 +69,13 @@ func namedDag(name string) ([]dag.Ev, int) {
 	case "funky":
 		return buildPlays(4, []string{"w00", "w01", "w02", "w03"}, funkyPlays(0)), 4
 	case "coinround":
+		return namedCoin(-1)
+	}
+	if strings.HasPrefix(name, "coinround~") {
+		return namedCoin(atoi(strings.TrimPrefix(name, "coinround~")))
+	}
+	switch name {
+	case "coinround-unused":
 		var firsts []string
 		var rest []playT
 		for _, p := range coinRoundPlays {
@@ -108,4 +116,44 @@ func namedDag(name string) ([]dag.Ev, int) {
 		return buildPlays(4, []string{"z0", "z1", "z2", "z3"}, append(pre, funkyPlays(4)...)), 4
 	}
 	return nil, 0
+}
+
+// namedCoin builds the coin-round DAG; dev >= 0 selects a single-event deviation of it: event number
+// dev takes as other-parent the previous event of the same other creator instead (a slightly older view),
+// all later events are re-signed on top. dev beyond the list or an event without such an alternative
+// yields nil.
+func namedCoin(dev int) ([]dag.Ev, int) {
+	plays := append([]playT{}, coinRoundPlays...)
+	if dev >= 0 {
+		if dev >= len(plays) || plays[dev].other == "" {
+			return nil, 0
+		}
+		// previous event of the other-parent's creator
+		var oc, oi = -1, -1
+		for _, p := range plays {
+			if p.name == plays[dev].other {
+				oc, oi = p.to, p.index
+			}
+		}
+		alt := ""
+		for _, p := range plays[:dev] {
+			if p.to == oc && p.index == oi-1 {
+				alt = p.name
+			}
+		}
+		if alt == "" {
+			return nil, 0
+		}
+		plays[dev].other = alt
+	}
+	var firsts []string
+	var rest []playT
+	for _, p := range plays {
+		if p.self == "" && p.other == "" && p.index == 0 && len(firsts) == p.to {
+			firsts = append(firsts, p.name)
+		} else {
+			rest = append(rest, p)
+		}
+	}
+	return buildPlays(4, firsts, rest), 4
 }
